@@ -63,6 +63,10 @@ def quote_name(name):
     return '`' + name.replace('`', '``') + '`'
 
 
+# first words of the keywords that are written as two words (KNOWLEDGE BASE, PRIMARY KEY, NULLS FIRST, GROUP BY ...)
+TWO_WORD_KEYWORD_STARTS = {'KNOWLEDGE', 'PRIMARY', 'NULLS', 'GROUP', 'ORDER', 'PARTITION', 'IF', 'IS', 'NOT'}
+
+
 def name_to_string(name):
     # for the places where a name is printed without quotes whenever it can be read back so
     if not no_wrap_identifier_regex.fullmatch(name) or name.upper() in NOT_NAME_KEYWORDS:
